@@ -526,10 +526,22 @@ pub fn mutate_path(t: &mut Tape, p: &str) -> String {
     let edits = 1 + t.below(2);
     for _ in 0..edits {
         let n = cs.len();
-        match t.below(14) {
+        match t.below(15) {
             0 if n > 0 => {
                 let i = t.below(n);
                 cs.remove(i);
+            },
+            14 => {
+                // a backslash is an ordinary character of a Unix path, not a separator
+                let idx: Vec<usize> = (0..n).filter(|i| cs[*i] == '/').collect();
+                if !idx.is_empty() {
+                    let i = t.pick(&idx);
+                    cs[i] = '\\';
+                }
+                else {
+                    let i = t.below(n + 1);
+                    cs.insert(i, '\\');
+                }
             },
             1 => {
                 let i = t.below(n + 1);
